@@ -313,6 +313,8 @@ package channels
 //@     len(step(s, E).Vouchers) >= len(s.Vouchers) && len(step(s, E).VoucherResults) >= len(s.VoucherResults) &&
 //@     (0 <= j && j < len(s.Vouchers) ==> step(s, E).Vouchers[j] == s.Vouchers[j]) &&
 //@     (0 <= j && j < len(s.VoucherResults) ==> step(s, E).VoucherResults[j] == s.VoucherResults[j])
+//@ lemma [vouchers-recorded-in-every-live-status] {C19}: foreach E in (NewVoucher, NewVoucherResult) :: forall s State :: !isFinal(s.Status) ==> applied(s, E)
+//@     -- a voucher (result) that was sent or received is recorded whatever the status of the channel, as long as it has not terminated
 //@ lemma [new-voucher-appends] {C19}: forall s State, v TypedVoucher :: applied(s, NewVoucher, v) ==>
 //@     len(step(s, NewVoucher, v).Vouchers) == len(s.Vouchers) + 1 &&
 //@     step(s, NewVoucher, v).Vouchers[len(s.Vouchers)].Type == v.Type && step(s, NewVoucher, v).Vouchers[len(s.Vouchers)].Voucher.Node == v.Voucher &&
